@@ -344,6 +344,12 @@ class PerformedNote:
         self.pnote_dict = pnote_dict
         self.pnote_dict["id"] = self.pnote_dict.get("id", None)
         self.pnote_dict["pitch"] = self.pnote_dict.get("pitch", self["midi_pitch"])
+        # "midi_pitch" is the key every reader of performed notes looks up
+        # (note_array, the sustain pedal adjustment, the exporters): a note
+        # given with the documented key "pitch" carries it as well
+        self.pnote_dict["midi_pitch"] = self.pnote_dict.get(
+            "midi_pitch", self.pnote_dict["pitch"]
+        )
         self.pnote_dict["note_on"] = self.pnote_dict.get("note_on", -1)
         self.pnote_dict["note_off"] = self.pnote_dict.get("note_off", -1)
         self.pnote_dict["sound_off"] = self.pnote_dict.get(
